@@ -25,8 +25,9 @@ const FALLBACK: &[(&str, &str)] = &[
 ];
 
 /// the expression `macros::path::to::f(args)` (or a bare `macros::path::to::f`) that follows `from` in `text`
-fn entry_expr(text: &str) -> Option<String> {
-    let start = text.find("macros::")?;
+fn entry_expr(text: &str, mods: &[String]) -> Option<String> {
+    // the first path into one of the crate's own modules after the attribute
+    let start = mods.iter().filter_map(|m| text.find(&format!("{}::", m))).min()?;
     let b = text.as_bytes();
     let mut i = start;
     while i < b.len() && (b[i].is_ascii_alphanumeric() || b[i] == b'_' || b[i] == b':') {
@@ -75,15 +76,35 @@ fn main() {
     println!("cargo:rerun-if-changed={}", lib_rs);
     let out_dir = std::path::PathBuf::from(std::env::var("OUT_DIR").unwrap());
     let mut f = std::fs::File::create(out_dir.join("strum_src.rs")).unwrap();
-    writeln!(f, "#[path = \"{}/strum_macros/src/helpers/mod.rs\"]\npub mod helpers;", repo).unwrap();
-    writeln!(f, "#[path = \"{}/strum_macros/src/macros/mod.rs\"]\npub mod macros;", repo).unwrap();
-
     let text = std::fs::read_to_string(&lib_rs).unwrap_or_default();
+    // the crate's own top-level modules (`mod helpers;`, `mod macros;` today), wherever their files are
+    let mut mods: Vec<String> = Vec::new();
+    for line in text.lines() {
+        let l = line.trim().trim_start_matches("pub(crate) ").trim_start_matches("pub ");
+        if let Some(rest) = l.strip_prefix("mod ") {
+            if let Some(name) = rest.strip_suffix(';') {
+                let name = name.trim();
+                if !name.is_empty() && name.chars().all(|c| c.is_ascii_alphanumeric() || c == '_') {
+                    mods.push(name.to_string());
+                }
+            }
+        }
+    }
+    if mods.is_empty() {
+        mods = vec!["helpers".to_string(), "macros".to_string()];
+    }
+    for m in &mods {
+        let dir = format!("{}/strum_macros/src/{}/mod.rs", repo, m);
+        let file = format!("{}/strum_macros/src/{}.rs", repo, m);
+        let path = if std::path::Path::new(&dir).exists() { dir } else { file };
+        writeln!(f, "#[path = \"{}\"]\npub mod {};", path, m).unwrap();
+    }
+
     let mut found: Vec<(String, String)> = Vec::new();
     let chunks: Vec<&str> = text.split("#[proc_macro_derive(").collect();
     for c in chunks.iter().skip(1) {
         let name: String = c.chars().take_while(|ch| ch.is_ascii_alphanumeric() || *ch == '_').collect();
-        if let Some(e) = entry_expr(c) {
+        if let Some(e) = entry_expr(c, &mods) {
             found.push((name, e));
         }
     }
